@@ -7,6 +7,10 @@ require (
 	pgregory.net/rapid v1.3.0
 )
 
-require github.com/google/go-cmp v0.7.0 // indirect
+require (
+	github.com/google/go-cmp v0.7.0 // indirect
+	github.com/huandu/xstrings v1.5.0 // indirect
+	golang.org/x/text v0.22.0 // indirect
+)
 
 replace github.com/grafana/cog => /repo
